@@ -373,7 +373,21 @@ class Execution:
         k = act["k"]
         if k == "obs":
             before = self._pending(act["step"].get("src"))
-            o = self.apply(act["step"], bind=False)
+            if act.get("fail_alloc") is not None:
+                # a failing allocation at the fail_alloc-th numpy call inside this read
+                from .faults import failing_allocation
+                with failing_allocation(int(act["fail_alloc"])) as proxy:
+                    o = self.apply(act["step"], bind=False)
+                self._count("alloc_fault_armed")
+                if proxy.fired:
+                    self._count("alloc_fault_fired")
+                    self._count("alloc_fault_fired_in:" + str(proxy.fired_in))
+                    if o[0] == "raised":
+                        self._count("alloc_fault_failed_the_read")
+                    if before:
+                        self._count("alloc_fault_fired_on_pending")
+            else:
+                o = self.apply(act["step"], bind=False)
             self._count("obs_fired")
             self._count("obs:" + act["step"]["op"] + ":" + str(act["step"].get("f", "")))
             if o[0] == "raised":
